@@ -17,3 +17,17 @@ for shape in ("cb_forEach", "cb_sort", "getter", "setter", "valueOf", "eval"):
     mk("C02-native-recursion-%s" % shape, "C02.A.class", {"stratum": "A", "shape": shape, "pend": "stmt", "try": "none"}, 1024 * 1024)
 mk("C02-caught-throw-leaks-operands", "C02.A.scale",
    {"stratum": "scale", "shape": "ctor", "pend": "plus", "try": "outer_try", "depth": 50, "loop": 300}, 1024 * 1024)
+
+# Part B witness: throw in try, mid-expression TypeError in catch, finally leaves with continue
+import c07
+prog = {"funcs": [{"id": 0, "b": [{"t": "loop", "id": 1, "kind": "for", "n": 2, "label": None, "b": [
+    {"t": "try", "id": 2, "b": [{"t": "d", "k": 1, "form": "throw_str"}],
+     "c": [{"t": "d", "k": 2, "form": "null_prop_mid"}],
+     "f": [{"t": "continue", "loop": 1, "label": None, "cond": None}]}]}]}], "profile": "witness"}
+assert c07.valid(prog)
+case = {"property": "C02", "seed": 0, "index": -1, "cell": {"stratum": "B", "mode": "inline", "nbig": 200}, "prog": prog,
+        "faults": [0, 1], "world": {"tick": 1e-5, "epoch": 1000.0}, "M": None, "T_work": None, "src": c02.render_b(prog, "inline")}
+doc = {"property": "C02", "clause": "C02.B.residue", "signature": {"exact": sha1(c02.normalise(case)), "class": c02.features(case)}, "case": case}
+path = os.path.join(os.path.dirname(os.path.dirname(os.path.abspath(__file__))), "findings", "C02-catch-midexpr-throw-finally-continue-leak.json")
+json.dump(doc, open(path, "w"), indent=1, sort_keys=True)
+print(path)
